@@ -919,6 +919,7 @@ class Emit:
             def dfs(n, path):
                 color[n] = 1
                 for c in calls[n]:
+                    if s.atomic_rx is not None and s.atomic_rx.search(c[1:].strip('"')): continue      # runs as plain sequential code (recursion allowed there)
                     if c in s.yielders and c in defined and not s.is_stubbed(c):
                         if color.get(c) == 1: raise Unsupported('recursion among yield-capable functions: %s -> %s' % (n, c))
                         if c not in color: dfs(c, path + [c])
